@@ -82,7 +82,8 @@ func (g *GTPv1U) DecodeFromBytes(data []byte, df gopacket.DecodeFeedback) error 
 			g.NPDU = data[10]
 		}
 		if g.ExtensionHeaderFlag {
-			extensionFlag := true
+			// A next extension header type of 0 means that no extension header follows.
+			extensionFlag := data[cIndex-1] != 0
 			for extensionFlag {
 				if cIndex >= dLen {
 					return fmt.Errorf("GTP packet too small: %d bytes", dLen)
